@@ -2,6 +2,7 @@ package props
 
 import (
 	"bytes"
+	"context"
 	"fmt"
 	"sort"
 	"strings"
@@ -13,6 +14,8 @@ import (
 	"github.com/shutter-network/shutter/shlib/shcrypto"
 
 	"github.com/shutter-network/rolling-shutter/rolling-shutter/keyper/epochkg"
+	"github.com/shutter-network/rolling-shutter/rolling-shutter/keyper/kprtopics"
+	"github.com/shutter-network/rolling-shutter/rolling-shutter/p2pmsg"
 	"github.com/shutter-network/rolling-shutter/rolling-shutter/medley/identitypreimage"
 	"github.com/shutter-network/rolling-shutter/rolling-shutter/medley/testkeygen"
 )
@@ -382,4 +385,172 @@ func TestC01_Exhaustive(t *testing.T) {
 			}
 		}
 	}
+}
+
+// ---------------------------------------------------------------------------
+// Layer B: the real pipeline on one keyper node (combined validator ->
+// DecryptionKeyShareHandler -> database -> emitted DecryptionKeys message).
+
+func TestC01_HandlerPipeline(t *testing.T) {
+	rec := recorder("C01")
+	rec.AddRule("layer B (handler pipeline on one core keyper node, real schema on pgfake): key-share messages for 1-2 identity groups (each group always sent as a whole, sorted, as honest keypers do) from senders 1..n-1 of kinds {valid, one share made for another identity, shares made with a foreign eon key set, repeat of an earlier message} pass through the real combined validator and, if accepted, the real handler; model as in layer A per group; after every message: junk is rejected and leaves decryption_key_share / decryption_key untouched, a DecryptionKeys message is emitted exactly at the transition to t distinct valid senders and carries exactly the eon's keys for the group, the key table holds exactly the model's keys. non-trivial as in layer A")
+	ctx := context.Background()
+	runRapid(t, N(120, 1500), func(rt *rapid.T) {
+		n := rapid.SampledFrom([]int{2, 3, 3, 4, 4, 5}).Draw(rt, "n")
+		th := rapid.IntRange(1, n).Draw(rt, "t")
+		f := getEonFixture(n, th)
+		node := newSimNode(flCore, 0, 4)
+		defer node.Close()
+		members := seq(n)
+		es := &eonSetup{KeyperConfigIndex: 5, Eon: 40, Activation: 100, Members: members, Threshold: th, Keys: f.Real}
+		if err := writeBatchConfigAndEon(ctx, node.DB, es, false); err != nil {
+			rt.Fatalf("setup: %v", err)
+		}
+		if err := writeDKGResult(ctx, node.DB, es, 0, true); err != nil {
+			rt.Fatalf("setup: %v", err)
+		}
+		ngroups := rapid.IntRange(1, 2).Draw(rt, "ngroups")
+		var groups [][][]byte
+		for g := 0; g < ngroups; g++ {
+			k := rapid.IntRange(1, 3).Draw(rt, fmt.Sprintf("gsize%d", g))
+			var ids [][]byte
+			for i := 0; i < k; i++ {
+				ids = append(ids, bytes.Repeat([]byte{byte(0x50 + 8*g + i)}, 32))
+			}
+			groups = append(groups, ids)
+		}
+		type elem struct {
+			kind   string
+			sender int
+			group  int
+			data   []byte
+		}
+		build := func(kind string, sender, g int) []byte {
+			m := &p2pmsg.DecryptionKeyShares{InstanceId: simInstanceID, Eon: 5, KeyperIndex: uint64(sender)}
+			for i, id := range groups[g] {
+				src, madeFor := f.Real, id
+				if kind == "foreign-key" {
+					src = f.Foreign
+				}
+				if kind == "wrong-identity" && i == len(groups[g])-1 {
+					madeFor = bytes.Repeat([]byte{0x99}, 32)
+				}
+				m.Shares = append(m.Shares, &p2pmsg.KeyShare{IdentityPreimage: id, Share: src.EpochSecretKeyShare(identitypreimage.IdentityPreimage(madeFor), sender).Marshal()})
+			}
+			return mustMarshalP2P(m)
+		}
+		valid := map[int]map[int]bool{}
+		derived := map[int]bool{}
+		junkBefore := map[int]bool{}
+		var hist []elem
+		var desc []string
+		ln := rapid.IntRange(1, 3*n+4).Draw(rt, "histLen")
+		for step := 0; step < ln; step++ {
+			l := fmt.Sprintf("e%d", step)
+			kind := rapid.SampledFrom([]string{"valid", "valid", "valid", "valid", "valid", "wrong-identity", "foreign-key", "repeat"}).Draw(rt, l)
+			var e elem
+			if kind == "repeat" && len(hist) > 0 {
+				e = hist[rapid.IntRange(0, len(hist)-1).Draw(rt, l+"ref")]
+				desc = append(desc, fmt.Sprintf("repeat(%s k%d g%d)", e.kind, e.sender, e.group))
+			} else {
+				if kind == "repeat" {
+					kind = "valid"
+				}
+				e = elem{kind: kind, sender: rapid.IntRange(1, n-1).Draw(rt, l+"s"), group: rapid.IntRange(0, ngroups-1).Draw(rt, l+"g")}
+				e.data = build(kind, e.sender, e.group)
+				desc = append(desc, fmt.Sprintf("%s(k%d g%d)", kind, e.sender, e.group))
+			}
+			hist = append(hist, e)
+			history := fmt.Sprintf("n=%d t=%d groups=%d | %s", n, th, ngroups, strings.Join(desc, " "))
+			before := node.DB.Srv.DumpData()
+			v := node.Validate(kprtopics.DecryptionKeyShares, e.data)
+			if v.Panicked != nil {
+				fatalf(rt, "validator-panic", "%v\nhistory: %s", v.Panicked, history)
+			}
+			if e.kind != "valid" {
+				if v.Accepted() {
+					fatalf(rt, "junk-share-accepted", "a %s share message was accepted\nhistory: %s", e.kind, history)
+				}
+				if node.DB.Srv.DumpData() != before {
+					fatalf(rt, "junk-share-changed-state", "rejected share message changed the database\nhistory: %s", history)
+				}
+				if !derived[e.group] {
+					junkBefore[e.group] = true
+				}
+				continue
+			}
+			if !v.Accepted() {
+				fatalf(rt, "valid-share-rejected", "valid share message got %s\nhistory: %s", v, history)
+			}
+			h := node.Handle(kprtopics.DecryptionKeyShares, e.data)
+			if h.Panicked != nil || h.Err != nil {
+				fatalf(rt, "handler-failed", "handler failed on an accepted share message: %v %v\nhistory: %s", h.Err, h.Panicked, history)
+			}
+			if valid[e.group] == nil {
+				valid[e.group] = map[int]bool{}
+			}
+			fresh := !valid[e.group][e.sender]
+			if !fresh && !derived[e.group] {
+				junkBefore[e.group] = true
+			}
+			valid[e.group][e.sender] = true
+			transition := !derived[e.group] && len(valid[e.group]) >= th
+			var keysOut []*p2pmsg.DecryptionKeys
+			for _, m := range h.Out {
+				if k, ok := m.(*p2pmsg.DecryptionKeys); ok {
+					keysOut = append(keysOut, k)
+				}
+			}
+			if transition {
+				derived[e.group] = true
+				if len(keysOut) != 1 {
+					fatalf(rt, "no-keys-at-threshold", "%d DecryptionKeys messages emitted when group %d reached %d distinct valid senders (t=%d)\nhistory: %s", len(keysOut), e.group, len(valid[e.group]), th, history)
+				}
+				if len(keysOut[0].Keys) != len(groups[e.group]) {
+					fatalf(rt, "wrong-keys-message", "keys message carries %d keys for a group of %d\nhistory: %s", len(keysOut[0].Keys), len(groups[e.group]), history)
+				}
+				for i, k := range keysOut[0].Keys {
+					ref, _ := f.Real.EpochSecretKey(identitypreimage.IdentityPreimage(groups[e.group][i]))
+					if !bytes.Equal(k.IdentityPreimage, groups[e.group][i]) || !bytes.Equal(k.Key, ref.Marshal()) {
+						fatalf(rt, "wrong-key", "emitted key %d of group %d is not the eon's key for that identity\nhistory: %s", i, e.group, history)
+					}
+				}
+			} else if len(keysOut) > 0 && !derived[e.group] {
+				fatalf(rt, "key-from-fewer-than-t", "keys message emitted with %d distinct valid senders (t=%d)\nhistory: %s", len(valid[e.group]), th, history)
+			}
+			// key table == model
+			have := map[string][]byte{}
+			for _, r := range node.DB.Srv.Rows("decryption_key") {
+				have[string(r["epoch_id"].([]byte))] = r["decryption_key"].([]byte)
+			}
+			for g, ids := range groups {
+				for _, id := range ids {
+					ref, _ := f.Real.EpochSecretKey(identitypreimage.IdentityPreimage(id))
+					got, ok := have[string(id)]
+					if derived[g] && (!ok || !bytes.Equal(got, ref.Marshal())) {
+						fatalf(rt, "wrong-key-stored", "key table does not hold the eon's key for an identity of group %d after its threshold was reached\nhistory: %s", g, history)
+					}
+					if !derived[g] && ok {
+						fatalf(rt, "key-from-fewer-than-t", "key stored for group %d with %d distinct valid senders (t=%d)\nhistory: %s", g, len(valid[g]), th, history)
+					}
+				}
+			}
+		}
+		if !checkEngine(t, rec, node.DB) {
+			rt.Fatalf("inconclusive")
+		}
+		nt := false
+		var labels []string
+		for g := range groups {
+			if derived[g] {
+				labels = append(labels, "key-derived")
+				if junkBefore[g] {
+					nt = true
+					labels = append(labels, "junk-before-key")
+				}
+			}
+		}
+		labels = append(labels, "pipeline")
+		rec.Case(fmt.Sprintf("pipe n=%d t=%d g=%d | %s", n, th, ngroups, strings.Join(desc, " ")), nt, labels...)
+	})
 }
